@@ -42,6 +42,9 @@ Inductive closepath :=
                               (* in the goroutine that ran the handler loop, after the loop returned
                                  and after the session was deleted from broker / dealer tables *)
 | CPPreSession                (* in the attach path, before a handler exists for the peer *)
+| CPShutdown (broker_stopped dealer_stopped : bool)
+                              (* realm shutdown: after broker.close() / dealer.close() returned, for a
+                                 session whose handler exited at shutdown without closing the peer *)
 | CPOther.
 
 Inductive nonnil := NNMake | NNLit | NNNormalize | NNChecked | NNSessionDetails | NNComponent | NNUnknown.
@@ -203,6 +206,7 @@ Definition closepath_ok (p : closepath) : bool :=
   match p with
   | CPExit l b d => l && b && d
   | CPPreSession => true
+  | CPShutdown b d => b && d
   | CPOther => false
   end.
 
